@@ -143,15 +143,23 @@ def confuse_rows(term, rows, seed):
     needles = [x[3][1][2] for x in walk(term)
                if x[0] == "call" and x[1] in ("contains", "startswith", "endswith") and x[3][1][0] == "lit"]
     needles = [n for n in needles if n]
+    r = random.Random(seed)
+    rows = _plant_members(term, [dict(x) for x in rows], r)
     if not needles:
         return rows
-    r = random.Random(seed)
-    rows = [dict(x) for x in rows]
     for row in rows:
         if r.random() < 0.6:
             n = r.choice(needles)
-            k = r.randrange(7)
-            if k == 0:
+            k = r.randrange(9)
+            if k >= 7:
+                # wildcards honoured only from some position on (or up to it): the characters on
+                # the other side of a random cut stay literal
+                idx = [i for i, ch in enumerate(n) if ch in "%_\\"]
+                cut = r.choice(idx) if idx else 0
+                head, tail = n[:cut], n[cut:]
+                sub = lambda x: x.replace("%", r.choice(["xy", "", "zzz"])).replace("_", "q").replace("\\", "")
+                v = head + sub(tail) if k == 7 else sub(head) + tail
+            elif k == 0:
                 v = n
             elif k == 1:
                 v = r.choice(["", "a", "zz"]) + n + r.choice(["", "b", "zz"])
@@ -166,6 +174,41 @@ def confuse_rows(term, rows, seed):
             else:
                 v = n.replace("%", "xy").replace("_", "q").replace("\\", "")
             row[r.choice(["s1", "s2"])] = v
+    return rows
+
+
+def _plant_members(term, rows, r):
+    """Targeted data for long `in` lists and large integer literals: rows whose column holds the
+    list's first, last and boundary-position members (and a non-member), or the neighbours of a
+    large integer literal, so that a dropped member or a rounded literal changes the selection."""
+    from .gen_syntax import BOUNDARY
+    plants = []
+    for x in walk(term):
+        if x[0] == "cmp" and x[1] == "in" and x[2][0] == "id" and x[2][1] in ("i1", "i2", "s1", "s2") and len(x[3][1]) > 4:
+            col = x[2][1]
+            lits = [(i, e) for i, e in enumerate(x[3][1]) if e[0] == "lit" and e[1] in ("int", "str")]
+            n = len(x[3][1])
+            want = {0, 1, n - 1, n - 2} | {b + d for b in BOUNDARY for d in (-1, 0, 1) if b + d < n}
+            chosen = [e for i, e in lits if i in want]
+            r.shuffle(chosen)
+            for e in chosen[:10]:
+                plants.append((col, int(e[2]) if e[1] == "int" else e[2]))
+            plants.append((col, -987654 if col[0] == "i" else "no such member"))
+        if x[0] == "cmp" and x[2][0] == "id" and x[2][1] in ("i1", "i2") and x[3][0] == "lit" and x[3][1] == "int":
+            v = int(x[3][2])
+            if abs(v) >= 2 ** 31:
+                for dv in (-1, 0, 1):
+                    if -2 ** 63 <= v + dv < 2 ** 63:
+                        plants.append((x[2][1], v + dv))
+    if not plants:
+        return rows
+    base = list(rows)
+    while len(rows) < min(len(plants), 14):
+        rows.append(dict(r.choice(base)))
+    order = list(range(len(rows)))
+    r.shuffle(order)
+    for i, (col, v) in zip(order, plants):
+        rows[i][col] = v
     return rows
 
 
